@@ -11,6 +11,16 @@ Example fr3 : from_range 4 1 3 = [1; 2]%Z. Proof. vm_compute. reflexivity. Qed.
 Example fr_hyp : (0 <= 2 < 4)%Z /\ ~ inject_Z 2 == 1 # 2 /\ ~ inject_Z 2 == 5 # 2.
 Proof. split; [lia|]. split; intro H; vm_compute in H; discriminate. Qed.
 
+(* explicit category order c, a, d, b (ranks 2, 0, 3, 1): the range (1/2, 5/2) selects positions 1, 2 = labels a, d;
+   the stored categories are ascending ([0; 3]) and the binary search accepts exactly a and d *)
+Example label_hyp : NoDup [2; 0; 3; 1]%Z /\ (0 <= 2 < Z.of_nat (length [2; 0; 3; 1]%Z))%Z.
+Proof. split; [repeat constructor; cbn; intuition discriminate|cbn; lia]. Qed.
+Example label_stored : stored_from_range [2; 0; 3; 1]%Z (1 # 2) (5 # 2) = [0; 3]%Z. Proof. vm_compute. reflexivity. Qed.
+Example label_contains : map (cat_contains_ss (stored_from_range [2; 0; 3; 1]%Z (1 # 2) (5 # 2))) [0; 1; 2; 3]%Z = [true; false; false; true].
+Proof. vm_compute. reflexivity. Qed.
+(* on an unsorted stored list the binary search misses: why from_range has to go through np.unique *)
+Example label_unsorted_misses : cat_contains_ss [2; 0; 3]%Z 2 = false. Proof. vm_compute. reflexivity. Qed.
+
 (* an unrotated rectangle over (categorical x with 3 labels, numeric y) is the And of a category set and an inclusive range *)
 Example rect_state :
   roi_to_state (R2 (Rect (- (1 # 2)) (5 # 2) (3 # 4) (3 # 2) B0 1 0) []) (KCat 3) KNum
